@@ -124,7 +124,7 @@ func clipS(s string) string {
 	return s
 }
 
-var c08LenAlphabet = []int{1, 23, 24, 255, 256, 65535}
+var c08LenAlphabet = []int{1, 23, 24, 255, 256, 65535, 65536}
 
 // c08ChainCBOR is what the certificate fetcher returns for a chain.
 func c08ChainCBOR(certs []*x509.Certificate) []byte {
